@@ -39,9 +39,7 @@ func newRLWEEnv(cfg pcfg, r *eng.Rand) (*rlweEnv, error) {
 	e.kgen = rlwe.NewKeyGenerator(p)
 	e.sk, e.pk = e.kgen.GenKeyPairNew()
 	e.sk2 = e.kgen.GenSecretKeyNew()
-	if cfg.Pow2 > 0 {
-		e.evkPs = []rlwe.EvaluationKeyParameters{{BaseTwoDecomposition: &cfg.Pow2}}
-	}
+	e.evkPs = cfg.evkParams()
 	rlk := e.kgen.GenRelinearizationKeyNew(e.sk, e.evkPs...)
 	e.galEl = p.GaloisElement(3)
 	galEls := []uint64{e.galEl, p.GaloisElement(1)}
@@ -85,7 +83,7 @@ func (e *rlweEnv) scheme() *scheme[*rlwe.Evaluator] {
 			o := rlwe.NewCiphertext(e.p, 1, e.p.MaxLevel())
 			eng.Panics(func() { _ = ev.Automorphism(x, e.galEl, o) })
 			eng.Panics(func() { _ = ev.ApplyEvaluationKey(x, e.swk, o) })
-			if len(e.cfg.P) > 0 && e.cfg.Pow2 == 0 {
+			if len(e.cfg.P) > 0 && e.cfg.Pow2 == 0 && !e.cfg.EvkNoP {
 				eng.Panics(func() { _ = ev.PartialTracesSum(x, 2, 3, o) })
 			}
 		},
@@ -97,6 +95,20 @@ func (e *rlweEnv) scheme() *scheme[*rlwe.Evaluator] {
 			ct.LogDimensions = ring.Dimensions{Rows: 1, Cols: 2}
 			ct.IsBatched = false
 			return ct
+		},
+		derived: []derivedEval[*rlwe.Evaluator]{
+			{name: "shallowcopy", mk: func(p *poisoner) *rlwe.Evaluator {
+				parent := rlwe.NewEvaluator(e.p, e.evk)
+				p.rlweEval(parent)
+				child := parent.ShallowCopy()
+				p.rlweEval(parent)
+				return child
+			}},
+			{name: "withkey", mk: func(p *poisoner) *rlwe.Evaluator {
+				parent := rlwe.NewEvaluator(e.p, nil)
+				p.rlweEval(parent)
+				return parent.WithKey(cloneKeySet(e.evk))
+			}},
 		},
 	}
 }
@@ -208,7 +220,7 @@ func runRLWEUnary(c *eng.Ctx, cfg pcfg, name string) {
 			u = r
 		}
 	}
-	if (len(cfg.P) == 0 && !u.noP) || (cfg.Ring == "ci" && u.stdOn) {
+	if ((len(cfg.P) == 0 || cfg.EvkNoP) && !u.noP) || (cfg.Ring == "ci" && u.stdOn) {
 		c.Count("rows_not_applicable", 1)
 		return
 	}
@@ -232,7 +244,7 @@ func runRLWEUnary(c *eng.Ctx, cfg pcfg, name string) {
 
 // runRLWELazy: the operations whose output is an element modulo QP.
 func runRLWELazy(t *T, e *rlweEnv, s *scheme[*rlwe.Evaluator]) {
-	if len(e.cfg.P) == 0 {
+	if len(e.cfg.P) == 0 || e.cfg.EvkNoP {
 		t.c.Count("rows_not_applicable", 1)
 		return
 	}
